@@ -817,7 +817,7 @@ Definition restore (r : raft) (s : snapshot) : Res (raft * bool) :=
            || IdSet.mem (r_id r) (cs_voters_outgoing cs))
   then Ok (r, false) else
   mt <- match_term (r_log r) (s_index s) (s_term s) ;;
-  if (r_pending_request_snapshot r =? INVALID_INDEX) && mt then
+  if ((r_pending_request_snapshot r =? INVALID_INDEX) || (s_index s <? r_pending_request_snapshot r)) && mt then
     l' <- RaftLog.commit_to (r_log r) (s_index s) ;; Ok (r <| r_log := l' |>, false)
   else
   l' <- log_restore (r_log r) s ;;
